@@ -105,6 +105,35 @@ def unfoldings(op, X, mode):
 
 
 # ------------------------------------------------------------------------------------------ one call
+# The published signatures of the pinned tree (frozen here on purpose: a parameter inserted in the middle of a
+# signature, or renamed, must show up through the positional / keyword call forms).
+SIGNATURES = {
+    "tucker": ["tensor", "rank", "fixed_factors", "n_iter_max", "init", "return_errors", "svd", "tol", "random_state", "mask", "verbose"],
+    "tensor_train": ["input_tensor", "rank", "svd", "verbose"],
+    "tensor_train_matrix": ["tensor", "rank", "svd", "verbose"],
+    "tensor_ring": ["input_tensor", "rank", "mode", "svd", "verbose"],
+    "Tucker": ["rank", "n_iter_max", "init", "return_errors", "svd", "tol", "fixed_factors", "random_state", "mask", "verbose"],
+    "TensorTrain": ["rank", "svd", "verbose"],
+    "TensorTrainMatrix": ["rank", "svd", "verbose"],
+    "TensorRing": ["rank", "mode", "svd", "verbose"],
+}
+
+
+def invoke(fn, name, values, cform, has_first=True):
+    """Calls fn with `values` (dict over SIGNATURES[name]; absent = default) positionally in the published order
+    ("pos": every parameter up to the last one given), all by keyword ("kw"), or the usual mixture ("mixed")."""
+    names = SIGNATURES[name]
+    if cform == "pos":
+        last = max(k for k, nme in enumerate(names) if nme in values)
+        missing = [nme for nme in names[:last + 1] if nme not in values]
+        if missing:
+            raise AssertionError("positional call needs %s" % missing)
+        return fn(*[values[nme] for nme in names[:last + 1]])
+    if cform == "kw" or not has_first:
+        return fn(**{nme: values[nme] for nme in names if nme in values})
+    return fn(values[names[0]], **{nme: values[nme] for nme in names[1:] if nme in values})
+
+
 def rank_argument(c, rspec, frac):
     """The `rank` argument in the documented form `rspec` standing for the rank vector c["rank"]."""
     r = [int(x) for x in c["rank"]]
@@ -155,7 +184,12 @@ def execute(case):
     pow2 = int(case.get("pow2", 0))
     unit = 2.0 ** pow2             # exact scaling; the contract is scale invariant
     Xin = (X * unit).astype(dtype) if pow2 else X.astype(dtype)   # integer dtypes only for integer-valued tensors (trace spec)
-    ev = {"id": case["id"], "cfg": c, "svd": case["svd"], "iters": case["iters"], "dtype": dtype, "pow2": pow2,
+    zeros = case.get("zeros", "pos") if dtype.startswith("float") else "pos"
+    if zeros != "pos":              # the exact zeros of the tensor as -0.0 or as the smallest subnormal (same tensor to 1e-300)
+        Xin = np.where(Xin == 0, np.array(-0.0 if zeros == "neg" else 5e-324, dtype=Xin.dtype), Xin)
+        if zeros == "sub" and dtype == "float32":
+            Xin = np.where(Xin == 0, np.float32(1e-45), Xin)
+    ev = {"id": case["id"], "cfg": c, "svd": case["svd"], "iters": case["iters"], "dtype": dtype, "pow2": pow2, "zeros": zeros,
           "ten": {k: v for k, v in t.items() if k in ("op", "shape", "idx", "vals", "fam", "exps")}}
     nrm2 = float(np.sum(X ** 2))
     if t["op"] == "matching":
@@ -181,28 +215,45 @@ def execute(case):
     try:
         rank = rank_argument(c, rspec, ev["frac"])
         Xt = tl.tensor(Xin)
+        cform, ret_err = case.get("cform", "mixed"), bool(case.get("ret_err", False))
+        ev["cform"], ev["ret_err"], ev["retry"] = cform, ret_err, bool(case.get("retry", False))
+        ev["svd_default"] = bool(case.get("svd_default", False)) and case["svd"] == "truncated_svd" and cform != "pos"
+        fname = {"tucker": "tucker", "tt": "tensor_train", "ttm": "tensor_train_matrix", "tr": "tensor_ring"}[c["op"]]
+        cname = {"tucker": "Tucker", "tt": "TensorTrain", "ttm": "TensorTrainMatrix", "tr": "TensorRing"}[c["op"]]
+        fn = {"tucker": tucker, "tt": tensor_train, "ttm": tensor_train_matrix, "tr": tensor_ring}[c["op"]]
+        cls = {"tucker": Tucker, "tt": TensorTrain, "ttm": TensorTrainMatrix, "tr": TensorRing}[c["op"]]
+
+        def values(svd_name, first):
+            v = {"rank": rank, "svd": svd_name}
+            if first is not None:
+                v[SIGNATURES[fname][0]] = first
+            if c["op"] == "tucker":
+                v.update(n_iter_max=case["iters"], init="svd", random_state=case["seed"])
+                if ret_err or cform == "pos":
+                    v["return_errors"] = ret_err
+                if cform == "pos":
+                    v.update(fixed_factors=None, tol=10e-5)
+            if c["op"] == "tr":
+                v["mode"] = mode_argument(c, ev["mspec"])
+            if ev["svd_default"] and svd_name == "truncated_svd":
+                del v["svd"]
+            return v
+
         if via == "function":
-            if c["op"] == "tucker":
-                dec = tucker(Xt, rank=rank, n_iter_max=case["iters"], init="svd", svd=case["svd"], random_state=case["seed"])
-            elif c["op"] == "tt":
-                dec = tensor_train(Xt, rank=rank, svd=case["svd"])
-            elif c["op"] == "ttm":
-                dec = tensor_train_matrix(Xt, rank=rank, svd=case["svd"])
-            elif c["op"] == "tr":
-                dec = tensor_ring(Xt, rank=rank, mode=mode_argument(c, ev["mspec"]), svd=case["svd"])
-            else:
-                raise AssertionError(c["op"])
+            if ev["retry"]:              # an earlier call with the same objects failed half-way and was caught
+                try:
+                    invoke(fn, fname, values("no_such_svd", Xt), cform)
+                except Exception:
+                    pass
+            dec = invoke(fn, fname, values(case["svd"], Xt), cform)
         else:
-            if c["op"] == "tucker":
-                est = Tucker(rank=rank, n_iter_max=case["iters"], init="svd", svd=case["svd"], random_state=case["seed"])
-            elif c["op"] == "tt":
-                est = TensorTrain(rank=rank, svd=case["svd"])
-            elif c["op"] == "ttm":
-                est = TensorTrainMatrix(rank=rank, svd=case["svd"])
-            elif c["op"] == "tr":
-                est = TensorRing(rank=rank, mode=mode_argument(c, ev["mspec"]), svd=case["svd"])
-            else:
-                raise AssertionError(c["op"])
+            est = invoke(cls, cname, values("no_such_svd" if ev["retry"] else case["svd"], None), cform, has_first=False)
+            if ev["retry"]:              # the estimator failed once (unknown SVD name), is corrected and used again
+                try:
+                    est.fit_transform(Xt)
+                except Exception:
+                    pass
+                est.svd = case["svd"]
             if via == "refit":       # the same estimator object, first fitted on another tensor (its outcome is not judged)
                 prng = np.random.RandomState(case["seed"] % (2**31))
                 P = prng.randint(-3, 4, size=tuple(case["pre"])).astype(dtype)
@@ -210,7 +261,15 @@ def execute(case):
                     est.fit_transform(tl.tensor(P))
                 except Exception:
                     pass
-            dec = est.fit_transform(Xt)
+            if via == "fit":         # the other public method of the estimators: fit() returns the estimator
+                back = est.fit(Xt) if cform != "kw" else est.fit(tensor=Xt)
+                dec = back.decomposition_
+            else:
+                dec = est.fit_transform(Xt) if cform != "kw" else est.fit_transform(tensor=Xt)
+        if c["op"] == "tucker" and ret_err:      # documented: "(tensor, errors)" when return_errors is set
+            dec, errs = dec
+            if not isinstance(errs, list):
+                raise TypeError("return_errors=True did not return a list of errors")
         if c["op"] == "tucker":
             ranks, rec = list(np.shape(dec[0])), tl.tucker_to_tensor(dec)
         elif c["op"] == "tt":
@@ -352,6 +411,10 @@ def rank_form(rng, c, k):
         rs = "ndarray"                       # not a documented form: may be refused (SVDDecomp.Lenient)
     out = {"rspec": rs, "frac": 0, "via": via, "pow2": POW2S[(k // 3) % len(POW2S)],
            "mspec": ("int", "np64", "int", "npintp", "np32", "int", "neg")[k % 7] if c["op"] == "tr" else "int"}
+    out.update(cform=("mixed", "pos", "kw")[(k // 2) % 3], retry=(k % 11 == 4), ret_err=(c["op"] == "tucker" and k % 3 == 1),
+               svd_default=(k % 4 == 2), zeros=("pos", "neg", "pos", "sub")[(k // 5) % 4])
+    if via == "class" and k % 2 == 0:
+        out["via"] = via = "fit"
     if via == "refit":
         if rs in ("tuple", "npint"):
             out["rspec"] = "list"            # a mutable list is what an estimator could corrupt between fits
@@ -446,7 +509,7 @@ def run(chk, opts):
                 % (len(algs), sum(len(v) for v in tens.values()), ", all in thorough" if thorough else "", len(cases) - n_exact))
     for e in events:
         if "cfg" in e:
-            chk.distinct.add((str(e["cfg"]), e["svd"], e["iters"], e["dtype"], e["rspec"], e["frac"], e["via"], e["mspec"]))
+            chk.distinct.add((str(e["cfg"]), e["svd"], e["iters"], e["dtype"], e["rspec"], e["frac"], e["via"], e["mspec"], e.get("cform"), e.get("retry"), e.get("ret_err"), e.get("zeros")))
     for e in events[:1] + events[n_exact - 1:n_exact] + events[-1:]:
         if "cfg" in e:
             chk.sample({k: v for k, v in e.items() if k != "data"})
